@@ -68,7 +68,7 @@ template<size_t... ns> static void ext_all(std_ext::index_sequence<ns...>) { int
 static void run() {
     ext_all(std_ext::make_index_sequence<21>::type());       // sizes 1..21
     ext_size<23>(); ext_size<31>(); ext_size<32>(); ext_size<33>(); ext_size<47>(); ext_size<63>(); ext_size<65>();
-    ext_matmul<1,1,1>(); ext_matmul<2,2,2>(); ext_matmul<3,3,3>(); ext_matmul<2,3,1>(); ext_matmul<3,1,3>(); ext_matmul<1,3,3>(); ext_matmul<3,3,1>(); ext_matmul<4,4,4>(); ext_matmul<3,4,5>(); ext_matmul<5,3,2>(); ext_matmul<5,5,5>(); ext_matmul<7,3,7>(); ext_matmul<2,9,3>(); ext_matmul<9,9,9>(); ext_matmul<8,7,5>(); ext_matmul<1,17,1>(); ext_matmul<17,1,17>();
+    ext_matmul<1,1,1>(); ext_matmul<2,2,2>(); ext_matmul<3,3,3>(); ext_matmul<2,3,1>(); ext_matmul<3,1,3>(); ext_matmul<1,3,3>(); ext_matmul<3,3,1>(); ext_matmul<4,4,4>(); ext_matmul<3,4,5>(); ext_matmul<5,3,2>(); ext_matmul<5,5,5>(); ext_matmul<7,3,7>(); ext_matmul<2,9,3>(); ext_matmul<9,9,9>(); ext_matmul<8,7,5>(); ext_matmul<1,17,1>(); ext_matmul<17,1,17>(); ext_matmul<4,2,22>(); ext_matmul<4,3,23>(); ext_matmul<5,2,26>(); ext_matmul<4,2,27>(); ext_matmul<4,2,43>(); ext_matmul<5,3,47>(); ext_matmul<22,2,4>(); ext_matmul<4,23,4>();
 }
 #endif
 
@@ -133,6 +133,9 @@ static void run() {
 #elif PART == 1
     d2_m(std_ext::make_index_sequence<8>::type());                    // every (M,N) in 2..9
     own_matmul<9,9,9>(); own_matmul<8,16,8>(); own_matmul<16,3,16>(); own_matmul<3,17,5>(); own_matmul<17,17,17>(); own_matmul<5,33,2>(); own_matmul<12,7,13>();
+    // wide outputs: more than five vectors per row with every remainder (the masked interior kernels), tall and deep ones
+    own_matmul<4,2,22>(); own_matmul<4,2,23>(); own_matmul<5,3,26>(); own_matmul<4,2,27>(); own_matmul<4,4,21>(); own_matmul<6,2,25>(); own_matmul<4,2,42>(); own_matmul<4,2,43>(); own_matmul<5,2,45>(); own_matmul<4,3,47>(); own_matmul<4,2,83>();
+    own_matmul<22,3,4>(); own_matmul<23,2,5>(); own_matmul<4,22,4>(); own_matmul<5,23,3>(); own_matmul<3,2,22>(); own_matmul<2,2,23>(); own_matmul<1,4,27>();
 #else
     sq_n(std_ext::make_index_sequence<8>::type());                    // square 2..9
     own_square<12>(); own_square<17>();
@@ -142,6 +145,32 @@ static void run() {
 
 #if SEC == 3
 static long allocs_in(void (*f)()) { const long before = vh_allocs; f(); return vh_allocs - before; }
+
+// every axis of ranks 1..5 with pairwise different extents: exactly the indices in [-extent, extent-1] are accepted
+static const int CAND[] = { -9, -8, -7, -6, -5, -4, -3, -2, -1, 0, 1, 2, 3, 4, 5, 6, 7, 8 };
+template<typename F> static void sweep_axis(const char* what, int axis, int extent, F access) {
+    for (int v : CAND) {
+        bool threw = false; int sig = 0;
+        VH_GUARDED_CALL(({ try { access(v); } catch (const std::exception&) { threw = true; } }), sig);
+        const bool valid = v >= -extent && v < extent;
+        if (sig) fail(what, "signal instead of an exception", axis, v, sig);
+        else if (valid && threw) fail(what, "exception for a valid index", axis, v);
+        else if (!valid && !threw) fail(what, "no exception for an out-of-range index", axis, v);
+        else ++n_ok;
+    }
+}
+static void bounds_sweep() {
+    volatile T sink = 0;
+    { Tensor<T,5> t; t.iota(0); sweep_axis("bounds_rank1", 0, 5, [&](int v) { sink = t(v); }); }
+    { Tensor<T,3,5> t; t.iota(0); sweep_axis("bounds_rank2", 0, 3, [&](int v) { sink = t(v, 1); }); sweep_axis("bounds_rank2", 1, 5, [&](int v) { sink = t(1, v); }); }
+    { Tensor<T,2,3,5> t; t.iota(0); sweep_axis("bounds_rank3", 0, 2, [&](int v) { sink = t(v, 1, 1); }); sweep_axis("bounds_rank3", 1, 3, [&](int v) { sink = t(1, v, 1); }); sweep_axis("bounds_rank3", 2, 5, [&](int v) { sink = t(1, 1, v); }); }
+    { Tensor<T,5,3,2> t; t.iota(0); sweep_axis("bounds_rank3b", 0, 5, [&](int v) { sink = t(v, 1, 1); }); sweep_axis("bounds_rank3b", 1, 3, [&](int v) { sink = t(1, v, 1); }); sweep_axis("bounds_rank3b", 2, 2, [&](int v) { sink = t(1, 1, v); }); }
+    { Tensor<T,2,3,4,5> t; t.iota(0); sweep_axis("bounds_rank4", 0, 2, [&](int v) { sink = t(v, 1, 1, 1); }); sweep_axis("bounds_rank4", 1, 3, [&](int v) { sink = t(1, v, 1, 1); }); sweep_axis("bounds_rank4", 2, 4, [&](int v) { sink = t(1, 1, v, 1); }); sweep_axis("bounds_rank4", 3, 5, [&](int v) { sink = t(1, 1, 1, v); }); }
+    { Tensor<T,2,3,4,5,6> t; t.iota(0); sweep_axis("bounds_rank5", 0, 2, [&](int v) { sink = t(v, 1, 1, 1, 1); }); sweep_axis("bounds_rank5", 1, 3, [&](int v) { sink = t(1, v, 1, 1, 1); }); sweep_axis("bounds_rank5", 2, 4, [&](int v) { sink = t(1, 1, v, 1, 1); }); sweep_axis("bounds_rank5", 3, 5, [&](int v) { sink = t(1, 1, 1, v, 1); }); sweep_axis("bounds_rank5", 4, 6, [&](int v) { sink = t(1, 1, 1, 1, v); }); }
+    { T buf[30]; for (int i = 0; i < 30; ++i) buf[i] = (T)i; TensorMap<T,2,3,5> m(buf); sweep_axis("bounds_map_rank3", 0, 2, [&](int v) { sink = m(v, 1, 1); }); sweep_axis("bounds_map_rank3", 1, 3, [&](int v) { sink = m(1, v, 1); }); sweep_axis("bounds_map_rank3", 2, 5, [&](int v) { sink = m(1, 1, v); }); }
+    { Tensor<T,3,5> t; t.iota(0); sweep_axis("bounds_write_rank2", 1, 5, [&](int v) { t(2, v) = (T)1; }); }
+    (void)sink;
+}
 static void work_expr() { Tensor<T,7,5> A, B; A.iota(1); B.iota(2); Tensor<T,7,5> C = A + B * (T)2 - sqrt(abs(A)); C += A; volatile T s = sum(C) + norm(C) + min(C) + max(C); (void)s; }
 static void work_linalg() { Tensor<T,6,6> A; A.iota(1); for (size_t i = 0; i < 6; ++i) A(i, i) += 40; Tensor<T,6,6> X = inverse(A); Tensor<T,6,6> L, U; lu(A, L, U); Tensor<T,6,6> Q, R; qr(A, Q, R); Tensor<T,6> b; b.iota(0); Tensor<T,6> x = solve(A, b); volatile T s = determinant(A) + X(0, 0) + x(1) + Q(0, 0); (void)s; Tensor<T,6,6> Y = A % X + trans(A); (void)Y; }
 static void work_einsum() { Tensor<T,3,4> A; Tensor<T,4,5> B; Tensor<T,5,2> C; A.iota(1); B.iota(2); C.iota(3); auto D = einsum<Index<0,1>,Index<1,2>,Index<2,3>>(A, B, C); auto E = permute<Index<1,0>>(A); auto F = einsum<Index<0,1>,Index<1,2>>(A, B); volatile T s = D(0, 0) + E(0, 0) + F(0, 0); (void)s; }
@@ -162,6 +191,7 @@ static void run() {
             (void)sink;
         }
         for (int ij = 0; ij < 2; ++ij) { bool threw = false; try { volatile T s = (*a.t)(ij ? 3 : -4, ij ? 4 : -5); (void)s; } catch (const std::exception&) { threw = true; } if (threw) fail("bounds_check", "exception for a valid index", ij); else ++n_ok; }
+        bounds_sweep();
         Tensor<T,6> v; v.iota(0); const int badv[] = { 6, -7, 1000 };
         for (int i : badv) { bool threw = false; int sig = 0; volatile T sink = 0; VH_GUARDED_CALL(({ try { sink = v(i); } catch (const std::exception&) { threw = true; } }), sig); if (sig || !threw) fail("bounds_check_1d", sig ? "signal" : "no exception", i, 0, sig); else ++n_ok; (void)sink; }
     }
